@@ -46,12 +46,12 @@ type Finding struct {
 	CallSite string   `json:"call_site,omitempty"`
 	Commit   string   `json:"commit,omitempty"`
 	Match    *struct {
-		Kind  string      `json:"kind"` // input | class
-		API   string      `json:"api,omitempty"`
-		Expr  string      `json:"expr,omitempty"`
-		Doc   interface{} `json:"doc,omitempty"`
-		HasDoc bool       `json:"has_doc,omitempty"`
-		Class string      `json:"class,omitempty"`
+		Kind   string      `json:"kind"` // input | class
+		API    string      `json:"api,omitempty"`
+		Expr   string      `json:"expr,omitempty"`
+		Doc    interface{} `json:"doc,omitempty"`
+		HasDoc bool        `json:"has_doc,omitempty"`
+		Class  string      `json:"class,omitempty"`
 	} `json:"match,omitempty"`
 }
 
@@ -70,8 +70,8 @@ type Tally struct {
 	r        *Run
 }
 
-func (t *Tally) Eval()        { t.evals++ }
-func (t *Tally) Evals(n int)  { t.evals += int64(n) }
+func (t *Tally) Eval()       { t.evals++ }
+func (t *Tally) Evals(n int) { t.evals += int64(n) }
 func (t *Tally) Count(name string) {
 	t.counters[name]++
 }
